@@ -21,8 +21,10 @@ def stamp(base: datetime.datetime, ms: int) -> str:
     return t.strftime("%Y-%m-%d %H:%M:%S.") + f"{t.microsecond // 1000:03d}"
 
 
-def write_log(path, rows, base: datetime.datetime, rate=200, velocity=400):
-    """rows: dicts {time (ms), seq (-1 = blank), x, y (1e-4 um), on, spot} as rendered by the Lean specification"""
+def format_lines(rows, base: datetime.datetime, rate=200, velocity=400):
+    """header and data lines for rows: dicts {time (ms), seq (-1 = blank), x, y (1e-4 um), on, spot} as rendered by the
+    Lean specification; `base` is the wall-clock time of laser clock 0 (the stamps carry the date, so an acquisition may
+    run over midnight, a month's or a year's end)"""
     lines = [HEADER]
     prev_on = False
     for r in rows:
@@ -38,5 +40,14 @@ def write_log(path, rows, base: datetime.datetime, rate=200, velocity=400):
         lines.append(",".join([stamp(base, r["time"]), seq, sub, "", comment, x, y, ix, iy, vel, state,
                                str(rate) if r["on"] else "0", "", r["spot"]]))
         prev_on = r["on"]
-    with open(path, "w") as fp:
-        fp.write("\n".join(lines) + "\n")
+    return lines
+
+
+def write_lines(path, lines, eol="\n", bom=False, final_eol=True):
+    """`eol` is the line terminator (the instrument's files have CRLF)"""
+    with open(path, "w", newline="", encoding="utf-8-sig" if bom else "utf-8") as fp:
+        fp.write(eol.join(lines) + (eol if final_eol else ""))
+
+
+def write_log(path, rows, base: datetime.datetime, rate=200, velocity=400, eol="\n", bom=False, final_eol=True):
+    write_lines(path, format_lines(rows, base, rate, velocity), eol, bom, final_eol)
